@@ -21,19 +21,22 @@ func init() {
 		ID:    prop,
 		Level: "exploration",
 		Rule: "layering: every choice of <=3 present sources out of {chart defaults, parent section, -f file1, -f file2, --set-json (object and key=json syntax), --set, --set-string, " +
-			"--set-file, --set-literal} x every tree of the family each source can express. quick family (20 trees over keys {a,b}): a in {string, number, list, null, every sub-map over {absent,string,null}^2, " +
-			"two sub-maps holding a list}, plus 5 trees in which b is a bystander or competes; thorough family (35 trees): every sub-map over {absent,string,list,null}^2, depth-3 chains, b-side shapes; " +
+			"--set-file, --set-literal} x every tree of the family each source can express. quick family (21 trees over keys {a,b}): a in {string, number, list, null, every sub-map over {absent,string,null}^2, " +
+			"two sub-maps holding a list, one sub-map holding a table}, plus 5 trees in which b is a bystander or competes; thorough family (35 trees): every sub-map over {absent,string,list,null}^2, depth-3 chains, b-side shapes; " +
 			"thorough adds every choice of 4 sources over a 12-tree core family. Chart trees: root / root>sub / root>sub>subsub for tuples of <=2 sources, 1 and 3 levels (2 and 3 with a parent section) for larger tuples; " +
 			"user sources repeat their tree under sub. and sub.subsub.; every value is tagged with its source and scope. A case is distinct by (sources, trees) and non-trivial when two sources speak about the same top-level key. " +
 			"--set grammar: every path (key in {a,b,'a.b','c,d','e=f'} followed by <=2 (thorough <=3) keys or indexes [0..2]) x 12 (22) value ASTs x 4 entry points x (6+4*(len-1)) base maps x 3 contexts (alone, before, after another pair); distinct by the full tuple. " +
 			"repeated flags (root chart): every sequence of length 3 over {file1,file2} (same path given again) x every pair of quick-family trees x defaults absent or any tree; " +
 			"--set / --set-json / --set-string with expressions A,B of the same flag in the orders (A,B), (A,B,A), (A,A,B) x every pair of trees; reference applies occurrences in the order given. " +
+			"one values file holding the two trees as YAML documents (orders (A,B), (A,B,A)). table primitives: CoalesceTables and MergeTables on every ordered pair of the 35+1 thorough-family trees. " +
+			"a winning null that sits on a key of the observed chart's own values.yaml must leave no key behind (checked on the raw values in every scope). " +
 			"no-mutation: deep snapshots of all chart Values and of the caller's map around ToRenderValues (every layering case) and CoalesceValues / chartutil.MergeValues (cases of <=2 sources), and again after overwriting every node of each result",
 		Run:    run,
 		Replay: replay,
 		Assumptions: []string{
 			"user sources are folded among themselves first (Options.MergeValues) and the result is laid over parent section and chart defaults; where a null sits below a map of a higher source the statement does not say whether the null still hides lower sources, both answers are accepted and counted (outcome null-under-higher-map:*)",
-			"a map key whose value is null and an absent key are the same observation (a template cannot tell them apart with `default`/`if`); numbers are compared by value, not by Go type (json.Number, int64, float64)",
+			"a map key whose value is null and an absent key are the same observation (a template cannot tell them apart with `default`/`if`) EXCEPT where the null was laid over a key that the observed chart's own values.yaml defines: there 'removes a default' is taken literally and the key must be absent (Helm keeps a null-valued key when there is no own default to remove, e.g. a null over a key only the parent section defines; that is accepted)",
+			"numbers are compared by value, not by Go type (json.Number, int64, float64)",
 			"a command line whose dotted --set/--set-*/--set-json path runs through a scalar, list or null left by a lower user source is rejected by Helm with an error; no template sees any value, so this is counted as an outcome, not as a violation",
 			"--set-json key={...} replaces the value at key (documented on ParseJSON: 'the new value overwrites the dest version'); layering therefore prints key=json pairs leaf by leaf and merging of objects is checked through the object syntax",
 			"globals, import-values/ProcessDependencies and --reuse-values mutate by design and are outside this property",
@@ -41,6 +44,11 @@ func init() {
 		RequiredFloors: []string{
 			"saw-null-removes-lower-value", "saw-null-removes-value-in-subchart-scope", "saw-map-merged-from-several-sources", "saw-scalar-replaces", "saw-list-replaces",
 			"saw-reject-type-conflict", "saw-null-under-higher-map", "nomut-probed",
+			"saw-null-over-default-map", "saw-null-over-default-scalar", "saw-null-over-default-list", "saw-nested-null-over-default-map", "saw-nested-null-over-subchart-default-map",
+			"mapmerge:earlier-map-later-scalar", "mapmerge:earlier-map-later-list", "mapmerge:earlier-map-later-null",
+			"mapmerge:earlier-scalar-later-map", "mapmerge:earlier-list-later-map", "mapmerge:earlier-null-later-map",
+			"mapmerge:nested-earlier-map-later-scalar", "mapmerge:nested-earlier-map-later-list", "mapmerge:nested-earlier-map-later-null", "mapmerge:nested-earlier-scalar-later-map",
+			"saw-multi-document-values-file", "tables:null-over-map", "tables:null-over-scalar", "tables:merge-keeps-null",
 			"saw-repeated-file-path-decides", "saw-repeated-flag-expression-decides", "saw-same-flag-twice-later-wins",
 			"set:escaped-key", "set:index-extends-list", "set:typed-int", "set:typed-null", "set:leading-zero-string", "set:error-on-other-kind", "set:siblings-kept",
 		},
@@ -48,10 +56,11 @@ func init() {
 }
 
 type replayData struct {
-	Mode  string     `json:"mode"` // layer | set
-	Class string     `json:"class"`
-	Layer *layerCase `json:"layer,omitempty"`
-	Set   *setCase   `json:"set,omitempty"`
+	Mode   string      `json:"mode"` // layer | set
+	Class  string      `json:"class"`
+	Layer  *layerCase  `json:"layer,omitempty"`
+	Set    *setCase    `json:"set,omitempty"`
+	Tables *tablesCase `json:"tables,omitempty"`
 }
 
 func replay(_ *core.Ctx, data json.RawMessage) []core.Violation {
@@ -70,6 +79,10 @@ func replay(_ *core.Ctx, data json.RawMessage) []core.Violation {
 		fails, _ := execLayer(w, *rd.Layer)
 		for _, f := range fails {
 			out = append(out, core.Violation{Property: prop, Key: layerKey(*rd.Layer, f), What: f.What, Replay: data})
+		}
+	case "tables":
+		if f, _ := execTables(*rd.Tables); f != nil {
+			out = append(out, core.Violation{Property: prop, Key: tablesKey(*rd.Tables, f), What: f.What, Replay: data})
 		}
 	case "set":
 		if f, _ := execSet(*rd.Set); f != nil {
@@ -101,6 +114,9 @@ func run(c *core.Ctx) {
 		defer w.close()
 		runRepeat(c, w, families("quick"), map[string]int{})
 		c.Count("phase_ms_repeat", time.Since(t0).Milliseconds())
+	}
+	if c.Only == "" || c.Only == "tables" {
+		runTables(c)
 	}
 	t1 := time.Now()
 	if c.Only == "" || c.Only == "set" {
@@ -263,6 +279,13 @@ func runRepeat(c *core.Ctx, w *work, fam [nSrc][]srcOpt, seenPre map[string]int)
 					lc.Srcs[srcDef] = def
 					one(lc)
 				}
+			}
+		}
+	}
+	for _, seq := range [][]int{{0, 1}, {0, 1, 0}} { // the documents of one multi-document values file merge in order
+		for _, t1 := range fam[srcF1] {
+			for _, t2 := range fam[srcF2] {
+				one(layerCase{Shape: 1, Rep: &repSpec{Family: srcF1, Items: []srcOpt{t1, t2}, Seq: seq, MultiDoc: true}})
 			}
 		}
 	}
